@@ -68,6 +68,16 @@ CONF_IMPORT = {
 CONF_PKG = {
     'main.conf': ['ka 1', '%include package:vfc19pk:frag.conf', 'kb 2', '%include package:vfc19ns:frag.conf', 'kb 3'],
 }
+# resources fetched through URL schemes other than file: - data: URLs, one of them labelled with a charset
+# nobody knows (the label is ignored, the text is read as UTF-8)
+CONF_DATA = {
+    'main.conf': ['ka 1', '%include data:text/plain;charset=x-klingon,kb%207', '%include data:,kb%208', 'kb 9'],
+}
+# an %include cycle (a known finding of C07: it ends in RecursionError) - whatever it ends in, nothing stays open
+CONF_CYCLE = {
+    'main.conf': ['ka 1', '%include a.conf'],
+    'a.conf': ['kb 2', '%include main.conf'],
+}
 CONF_PKG2 = {
     'main.conf': ['ka 1', '%include package:vfc19ns:frag.conf'],
 }
@@ -102,7 +112,7 @@ def workdir():
             open(os.path.join(d, pk, 'frag.conf'), 'w').write('kb 7\n')
         import sys
         sys.path.insert(0, d)
-        for sub, files in (('c1', CONF), ('c2', CONF_IMPORT), ('c3', CONF_PKG), ('c4', CONF_PKG2)):
+        for sub, files in (('c1', CONF), ('c2', CONF_IMPORT), ('c3', CONF_PKG), ('c4', CONF_PKG2), ('c7', CONF_DATA), ('c8', CONF_CYCLE)):
             for name, lines in files.items():
                 p = os.path.join(d, sub, name)
                 os.makedirs(os.path.dirname(p), exist_ok=True)
@@ -255,7 +265,7 @@ class C19(Harness):
 
     def units(self, tier):
         us = []
-        for scen in ('schema', 'c1', 'c2', 'c1-file', 'stringio', 'schema-twice', 'c3', 'c4', 'c1-twice', 'c5-twice', 'c6-sameschema'):
+        for scen in ('schema', 'c1', 'c2', 'c1-file', 'stringio', 'schema-twice', 'c3', 'c4', 'c1-twice', 'c5-twice', 'c6-sameschema', 'c7', 'c8'):
             for kind in ('none', 'read', 'open', 'stream', 'datatype', 'section'):
                 us.append({'scenario': scen, 'kind': kind})
         return us
@@ -383,7 +393,7 @@ class C19(Harness):
                 else:
                     # the schema itself is loaded inside the tracked region as well
                     schema = ZConfig.loadSchema(os.path.join(d, 'schema.xml'))
-                    sub = scen if scen in ('c2', 'c3', 'c4') else 'c1'
+                    sub = scen if scen in ('c2', 'c3', 'c4', 'c7', 'c8') else 'c1'
                     path = os.path.join(d, sub, 'main.conf')
                     if scen == 'stringio':
                         ZConfig.loadConfigFile(schema, io.StringIO('ka 1\nkb 2\n<ta>\n</ta>\n'))
